@@ -22,7 +22,7 @@ def run(ctx):
     else:
         fams_laws = ["CorruptSnap", "CorruptDelta", "BigSnap", "BigDelta", "Registry"]
         fams_a = ["CorruptSnap", "CorruptDelta", "BigSnap", "BigDelta", "Registry"]
-        nb, seeds, par = 3000, 4, 8
+        nb, seeds, par = 6000, 6, 8
     paths = snapalg.run_all(ctx, run_, binp, fams_laws, fams_a, "parse", nb, seeds=seeds, par=par, law_workers=2)
     if ctx.tier == "thorough" and paths:
         def mut(ev):
